@@ -439,6 +439,38 @@ fn csvrd_case(cx: &mut Ctx, env: &mut Env, bom: bool, lines: &[(String, Option<T
     let _ = std::fs::remove_file(&path);
 }
 
+/// CSV whose header lists the columns in ANOTHER order than the record type declares its fields: serde binds struct
+/// fields BY NAME when the header row is used, so the whole read (`read_csv_vec`, header-driven) and every streamed view
+/// must return the same records (round-4 seeded change C09-6: a streamed reader that deserialises rows positionally).
+/// Oracle only: the request names the permutation, the answer is `-`.
+#[derive(Clone, Debug, PartialEq, Serialize, Deserialize)]
+struct Named { first: String, last: String, age: i64 }
+fn csv_header_order_case(cx: &mut Ctx, env: &mut Env, perm: [usize; 3], n: usize, per: usize) {
+    let cols = ["first", "last", "age"];
+    let recs: Vec<Named> = (0..n).map(|i| Named { first: format!("f{i}"), last: format!("l{}", i * 7 % 5), age: i as i64 * 3 - 4 }).collect();
+    let mut text = format!("{},{},{}\n", cols[perm[0]], cols[perm[1]], cols[perm[2]]);
+    for r in &recs {
+        let f = [r.first.clone(), r.last.clone(), r.age.to_string()];
+        text.push_str(&format!("{},{},{}\n", f[perm[0]], f[perm[1]], f[perm[2]]));
+    }
+    let path = env.fresh("csv");
+    if env.own(cx, "write CSV bytes", std::fs::write(&path, text.as_bytes())).is_none() { return; }
+    let idx = cx.case(format!("ORACLE-ONLY csv-header-order perm={}{}{} n={n} per={per}", perm[0], perm[1], perm[2]), "-".into(), n >= 2);
+    cx.count("csvhdr:cases");
+    let whole = read_csv_vec::<Named>(&path, true);
+    let p = Pipeline::default();
+    let seq = guarded(|| read_csv_streaming::<Named>(&p, &path, true, per).and_then(|pc| pc.collect_seq()));
+    let p2 = Pipeline::default();
+    let par = guarded(|| read_csv_streaming::<Named>(&p2, &path, true, per).and_then(|pc| pc.collect_par(None, Some(3))));
+    let ok = |r: &Result<anyhow::Result<Vec<Named>>, String>| matches!(r, Ok(Ok(v)) if *v == recs);
+    if !matches!(&whole, Ok(v) if *v == recs) {
+        cx.oracle_fail(idx, "roundtrip-differs", format!("read_csv_vec of a header-named file: {whole:?} expected {recs:?}"));
+    } else if !(ok(&seq) && ok(&par)) {
+        cx.oracle_fail(idx, "streamed-differs-from-whole", format!("header order {perm:?}: whole read binds fields by name, streamed seq_ok={} par_ok={}", ok(&seq), ok(&par)));
+    }
+    let _ = std::fs::remove_file(&path);
+}
+
 fn gen_csv_lines(cx: &mut Ctx, malformed: bool) -> (bool, Vec<(String, Option<Tok>, &'static str)>) {
     let n = cx.rng.below(9);
     let mut out: Vec<(String, Option<Tok>, &'static str)> = vec![];
@@ -743,6 +775,9 @@ pub fn corpus(cx: &mut Ctx, env: &mut Env) {
     csvrd_case(cx, env, false, &[("s,id".into(), Some(Tok::Bad), "\n")], true, 3);
     csvrd_case(cx, env, false, &[], false, 1);
     csvrd_case(cx, env, false, &[], true, 0);
+    for perm in [[0usize, 1, 2], [1, 0, 2], [2, 1, 0], [1, 2, 0]] {
+        for (n, per) in [(0usize, 1usize), (1, 1), (5, 2), (7, 100)] { csv_header_order_case(cx, env, perm, n, per); }
+    }
     for (sizes, per) in [(vec![2usize, 1, 3], 1usize), (vec![2, 1, 3], 2), (vec![4], 0), (vec![], 1)] {
         pqbad_case(cx, env, &sizes, per, false);
         pqbad_case(cx, env, &sizes, per, true);
